@@ -254,19 +254,20 @@ theorem shapeMatch_any3 {s : List Nat} (h : shapeMatch [none, some 3] s = true) 
   exact h.symm
 
 /-- **iodata_ctor_shapes**: a result dictionary that passes the validators of `IOData.__init__` has mutually
-consistent per-atom shapes (`natom` from the priority list atcoords, atcorenums, atnums). -/
+consistent per-atom shapes (`natom` from the priority list atcoords, atcorenums, atmasses, atnums). -/
 theorem ctorOk_consistent (o : RObj) (n : Nat) (hn : o.natom = some n) (h : ctorOk o = true) :
     o.Consistent n := by
   unfold ctorOk at h
   simp only [Bool.and_eq_true] at h
-  obtain ⟨⟨⟨⟨⟨h1, h2⟩, h3⟩, h4⟩, h5⟩, h6⟩ := h
-  rw [hn] at h1 h2 h3 h4
-  refine ⟨?_, ?_, ?_, ?_, ?_, ?_⟩
+  obtain ⟨⟨⟨⟨⟨⟨h1, h2⟩, h3⟩, h4⟩, h5⟩, h6⟩, h7⟩ := h
+  rw [hn] at h1 h2 h3 h4 h7
+  refine ⟨?_, ?_, ?_, ?_, ?_, ?_, ?_⟩
   · intro s hs; rw [hs] at h2; exact shapeMatch_two h2
   · intro s hs; rw [hs] at h4; exact shapeMatch_one h4
   · intro s hs; rw [hs] at h3; exact shapeMatch_one h3
   · intro k hk; simp only [List.all_eq_true] at h1; simpa using h1 k hk
   · intro s hs; rw [hs] at h5; exact shapeMatch_any3 h5
   · intro s hs; rw [hs] at h6; exact shapeMatch_any3 h6
+  · intro s hs; rw [hs] at h7; exact shapeMatch_one h7
 
 end Iodata.Rd
